@@ -700,6 +700,22 @@ theorem detects_message_std_accessor_removal (hw : WF cur) {pm cm : FlatMsg}
 /-! ### changes of a field that keeps its number in a message that keeps its name — or of an
     extension that keeps its extendee and number (`FieldPaired`, both halves of the field pair handler) -/
 
+/-- integer, bool and enum defaults (`DefVal.num`: the exact value as canonical text) are equal
+    exactly when the values are: no rounding (field_default.go compares them as big.Float with 64
+    bits of mantissa, `SetInt64` / `SetUint64`) -/
+theorem defaultsEqual_num (a b : String) (za zb : Bool) :
+    defaultsEqual (.num a za) (.num b zb) = decide (a = b) := by
+  unfold defaultsEqual
+  simp only [DefVal.nan, DefVal.rat]
+  rfl
+
+example : defaultsEqual (.num "9007199254740993/1" false) (.num "9007199254740992/1" false) = false := by decide
+example : defaultsEqual (.num "18446744073709551615/1" false) (.num "18446744073709551614/1" false) = false := by decide
+example : defaultsEqual (.num "-9223372036854775807/1" false) (.num "-9223372036854775808/1" false) = false := by decide
+/-- string defaults: exact, case-sensitive -/
+example : defaultsEqual (.str "616263") (.str "414243") = false := by decide
+
+
 section field
 variable (hw : WF cur) {pf cf : FlatField} (hp : FieldPaired cur prev cf pf)
 include hw hp
@@ -891,6 +907,15 @@ theorem detects_default_change (h1 : pf.field.canHaveDefault = true) (h2 : cf.fi
     apply Bool.eq_false_iff.2; intro h; exact hz (by simpa using h)
   simp [h1, h2, hz', hd]
 
+/-- A changed default of an integer (also bool / enum) field is reported HOWEVER CLOSE the two
+    values are — 2^53+1 → 2^53, MaxUint64 → MaxUint64-1, MinInt64+1 → MinInt64: the comparison is
+    exact, not through float64. -/
+theorem detects_integer_default_change (h1 : pf.field.canHaveDefault = true) (h2 : cf.field.canHaveDefault = true)
+    {a b : String} {za zb : Bool} (hpd : pf.field.dflt = .num a za) (hcd : cf.field.dflt = .num b zb)
+    (hne : a ≠ b) (hz : ¬ (za = true ∧ zb = true)) :
+    Reports "FIELD_SAME_DEFAULT" (fieldAnn "FIELD_SAME_DEFAULT" cf [cf.path ++ [7], cf.path]) cur prev :=
+  detects_default_change hw hp h1 h2 (by rw [hpd, hcd]; exact hz)
+    (by rw [hpd, hcd, defaultsEqual_num]; exact decide_eq_false hne)
 /-- FIELD_SAME_JSTYPE: `jstype` of a 64-bit integer field changed — located at the option if
     written, else the field -/
 theorem detects_jstype_change (hp64 : pf.field.ty.is64 = true) (hc64 : cf.field.ty.is64 = true)
@@ -1524,5 +1549,18 @@ example : Reports "FIELD_WIRE_COMPATIBLE_TYPE" ⟨"FIELD_WIRE_COMPATIBLE_TYPE", 
 example : Reports "FIELD_WIRE_JSON_COMPATIBLE_TYPE"
     ⟨"FIELD_WIRE_JSON_COMPATIBLE_TYPE", "g/e.proto", [4, 0, 2, 3, 6]⟩ gCur gPrev :=
   detects_wire_json_message_type_name_change gCur_wf (gM_paired 3 (by decide) (by decide) rfl) rfl (Or.inr rfl) (by decide)
+
+/-! ### defaults above 2^53 (witness `dPrev → dCur`, Lemmas/BreakingWitness.lean): int64
+    9007199254740993 → 9007199254740992, uint64 MaxUint64 → MaxUint64-1, sint64 MinInt64+1 → MinInt64
+    (each pair rounds to ONE float64) and string "abc" → "ABC" -/
+
+example : Reports "FIELD_SAME_DEFAULT" ⟨"FIELD_SAME_DEFAULT", "lim.proto", [4, 0, 2, 0, 7]⟩ dCur dPrev :=
+  detects_integer_default_change dCur_wf (dM_paired 1 (by decide) (by decide) rfl) rfl rfl rfl rfl (by decide) (by decide)
+example : Reports "FIELD_SAME_DEFAULT" ⟨"FIELD_SAME_DEFAULT", "lim.proto", [4, 0, 2, 1, 7]⟩ dCur dPrev :=
+  detects_integer_default_change dCur_wf (dM_paired 2 (by decide) (by decide) rfl) rfl rfl rfl rfl (by decide) (by decide)
+example : Reports "FIELD_SAME_DEFAULT" ⟨"FIELD_SAME_DEFAULT", "lim.proto", [4, 0, 2, 2, 7]⟩ dCur dPrev :=
+  detects_integer_default_change dCur_wf (dM_paired 3 (by decide) (by decide) rfl) rfl rfl rfl rfl (by decide) (by decide)
+example : Reports "FIELD_SAME_DEFAULT" ⟨"FIELD_SAME_DEFAULT", "lim.proto", [4, 0, 2, 3, 7]⟩ dCur dPrev :=
+  detects_default_change dCur_wf (dM_paired 4 (by decide) (by decide) rfl) rfl rfl (by decide) (by decide)
 
 end BufProofs.C03
